@@ -38,6 +38,8 @@ pub struct Invocation {
     pub started_after_shutdown: bool,
     pub log_len_at_start: usize,
     pub read_pos_at_start: usize,
+    /// Input bytes the library had read when the handler returned.
+    pub read_pos_at_end: usize,
     pub finished: bool,
     /// Violations detected inside the handler (reported after the run).
     pub violation: Option<Violation>,
@@ -90,6 +92,11 @@ pub struct PlanOpts {
     pub force_keep: bool,
     /// Only position-independent noise everywhere (no END-type replies), open- or closed-loop gating.
     pub either_noise: bool,
+    /// The client sends every request right behind the previous one without waiting for its EndRequest.
+    pub pipelined: bool,
+    /// Closed-loop variant: records may follow a query in the same burst; the peer then waits for all replies
+    /// owed so far before it sends the next burst.
+    pub burst: bool,
 }
 
 fn reply_is_end(r: &Reply) -> bool {
@@ -226,7 +233,7 @@ pub fn gen_plan(cx: &mut Ctx, o: &PlanOpts) -> Plan {
                     gated = need;
                 }
                 segs.push(Seg { end, gate: Gate::AfterEndRequests(req_idx) });
-            } else if need > gated {
+            } else if need > gated && !(o.burst && cx.ch.chance(1, 2)) {
                 segs.push(Seg { end, gate: Gate::AfterReplies(need) });
                 gated = need;
             } else if !segs.is_empty() && cx.ch.chance(1, 2) {
@@ -240,7 +247,7 @@ pub fn gen_plan(cx: &mut Ctx, o: &PlanOpts) -> Plan {
         for i in 0..k {
             // END-type replies owed before this request's segment count towards the threshold
             let noise_ends = replies.iter().filter(|r| r.rec_start < offs[i] && reply_is_end(r)).count();
-            let gate = if i == 0 { Gate::Open } else { Gate::AfterEndRequests(i + noise_ends) };
+            let gate = if i == 0 || o.pipelined { Gate::Open } else { Gate::AfterEndRequests(i + noise_ends) };
             // optionally split the request's bytes into a few open segments (arrival bursts)
             let (s, e) = (offs[i], offs[i + 1]);
             let mut cuts = vec![e];
@@ -624,6 +631,7 @@ async fn handler_body(req: &mut Req<'_>, world: Shared, mode: HandlerMode) -> io
     };
     st.with(|w, inv| {
         inv.finished = true;
+        inv.read_pos_at_end = w.read_pos;
         if let Err(e) = &r { inv.status = Some(format!("err:{:?}", e.kind())); }
         w.cx.ev("handler_end", 0, 0);
     });
@@ -658,7 +666,10 @@ async fn handler_seq(req: &mut Req<'_>, st: &mut HState) -> io::Result<ExitStatu
         let w_ret = if read_plan == 0 && can_read && !at_eof { 0 } else if read_plan == 1 { 2 } else { 4 };
         let w_probe = if readers { 3 } else { 0 };
         // a role without input streams can still be read: end-of-file at once, or the abort if one is buffered
-        if st.streams.is_empty() && read_plan != 2 && st.chance(1, 4) {
+        // (not with a pipelining client: with no stream selected the parser ignores everything it is given, which
+        // would include the next request)
+        let pipelining = lock(&st.world).read_everything;
+        if st.streams.is_empty() && read_plan != 2 && !pipelining && st.chance(1, 4) {
             let mut buf = [0u8; 4];
             st.ev("h_idle_read", 0, 0);
             let r = poll_fn(|cx| Pin::new(&mut *req).poll_read(cx, &mut buf)).await;
@@ -786,6 +797,34 @@ async fn handler_seq(req: &mut Req<'_>, st: &mut HState) -> io::Result<ExitStatu
                 }
             }
         }
+    }
+    if lock(&st.world).read_everything {
+        // pipelining client: this handler ends at the end of its final input stream (so the request is closed at a
+        // record boundary and nothing of the next request is interpreted on its behalf)
+        let n = st.streams.len();
+        if let Some(cur) = st.active {
+            if cur + 1 < n && st.chance(1, 2) {
+                let t = RecordType::try_from(st.streams[n - 1]).expect("type");
+                st.ev("h_set_stream", (n - 1) as u64, 0);
+                if let Err(p) = guard(|| req.set_stream(t)) { st.fail(Violation::new("c18_selection", "async_set_stream", format!("legal set_stream({t:?}) panicked: {p}"))); }
+                st.active = Some(n - 1);
+            }
+        }
+        let mut guard_reads = 0u32;
+        while let Some(cur) = st.active {
+            if st.with(|_, inv| inv.eof[cur]) {
+                if cur + 1 >= n { break; }
+                let t = RecordType::try_from(st.streams[cur + 1]).expect("type");
+                st.ev("h_set_stream", (cur + 1) as u64, 0);
+                if let Err(p) = guard(|| req.set_stream(t)) { st.fail(Violation::new("c18_selection", "async_set_stream", format!("legal set_stream({t:?}) panicked: {p}"))); }
+                st.active = Some(cur + 1);
+                continue;
+            }
+            if st.chance(1, 3) { h_fill(req, st).await?; } else { let len = st.range(1, 300); h_read(req, st, len).await?; }
+            guard_reads += 1;
+            if guard_reads > 200_000 { st.fail(Violation::new("hang", "handler", "200000 reads without reaching end-of-file".into())); break; }
+        }
+        st.probe("handler_read_to_final_eof");
     }
     let (s, name) = exit_status(st);
     st.with(|_, inv| inv.status = Some(name));
@@ -1275,7 +1314,7 @@ pub fn c07(cx: &mut Ctx) -> VResult {
     cx.declare(F_SPURIOUS, P_C07);
     // one run in 16 is a long-lived keep-alive connection (5..12 requests): state carried from request to request
     let max_reqs = if cx.ch.chance(1, 16) { 12 } else { 4 };
-    let o = PlanOpts { max_reqs, noise: cx.ch.pick(4), closed_loop: false, abort: false, small_buf_bias: cx.ch.chance(1, 2), force_keep: false, either_noise: false };
+    let o = PlanOpts { max_reqs, noise: cx.ch.pick(4), closed_loop: false, abort: false, small_buf_bias: cx.ch.chance(1, 2), force_keep: false, either_noise: false, pipelined: false, burst: false };
     let plan = gen_plan(cx, &o);
     note_plan(cx, &plan);
     let knobs = gen_knobs(cx, true, plan.wire.len());
@@ -1322,10 +1361,21 @@ pub fn c08(cx: &mut Ctx) -> VResult {
     c08_mode(cx, HandlerMode::Seq)
 }
 
+/// C08, first sentence for a peer that keeps sending behind a query: bursts of whole records, each burst
+/// followed by a wait for every reply owed so far. Whenever the task suspends on the transport read having
+/// read a whole number of records, the replies for all of them are in the log.
+pub fn c08_bursts(cx: &mut Ctx) -> VResult {
+    c08_any(cx, HandlerMode::Seq, true)
+}
+
 fn c08_mode(cx: &mut Ctx, hmode: HandlerMode) -> VResult {
+    c08_any(cx, hmode, false)
+}
+
+fn c08_any(cx: &mut Ctx, hmode: HandlerMode, burst: bool) -> VResult {
     cx.declare(F_TRANSPORT, P_BASE);
     cx.declare(&["peer_withhold"], C08_PROBES);
-    let o = PlanOpts { max_reqs: 3, noise: 2 + cx.ch.pick(4), closed_loop: true, abort: false, small_buf_bias: cx.ch.chance(1, 2), force_keep: false, either_noise: false };
+    let o = PlanOpts { max_reqs: 3, noise: 2 + cx.ch.pick(4), closed_loop: true, abort: false, small_buf_bias: cx.ch.chance(1, 2), force_keep: false, either_noise: false, pipelined: false, burst };
     let plan = gen_plan(cx, &o);
     note_plan(cx, &plan);
     for r in plan.replies.iter().filter(|r| !reply_is_end(r)) {
@@ -1343,6 +1393,15 @@ fn c08_mode(cx: &mut Ctx, hmode: HandlerMode) -> VResult {
     let triggers: Vec<usize> = plan.replies.iter().filter(|r| !reply_is_end(r)).map(|r| r.rec_end).collect();
     let mut out = run_conn_with(inner, &plan, knobs, &ConnOpts { mode: hmode, rfault: RFault::None, wfault: WFault::None, shutdown: None, strict_no_spurious: true }, |w| {
         w.owed_triggers = triggers.clone();
+        if burst {
+            let mut b = vec![0usize];
+            let mut p = 0usize;
+            while p + 8 <= plan.wire.len() {
+                p += 8 + usize::from(u16::from_be_bytes([plan.wire[p + 4], plan.wire[p + 5]])) + usize::from(plan.wire[p + 6]);
+                b.push(p);
+            }
+            w.rec_bounds = b;
+        }
     });
     give_back(cx, &mut out);
     cx.nontrivial |= !triggers.is_empty();
@@ -1386,7 +1445,7 @@ pub fn c09(cx: &mut Ctx) -> VResult {
     cx.declare(F_TRANSPORT, P_BASE);
     cx.declare(F_SPURIOUS, &["output_stream_refused", "async_rejected_selection", "early_advance_async"]);
     cx.declare(&[], C09_PROBES);
-    let o = PlanOpts { max_reqs: 2, noise: cx.ch.pick(5), closed_loop: false, abort: false, small_buf_bias: cx.ch.chance(1, 2), force_keep: false, either_noise: false };
+    let o = PlanOpts { max_reqs: 2, noise: cx.ch.pick(5), closed_loop: false, abort: false, small_buf_bias: cx.ch.chance(1, 2), force_keep: false, either_noise: false, pipelined: false, burst: false };
     let plan = gen_plan(cx, &o);
     note_plan(cx, &plan);
     let mut knobs = gen_knobs(cx, true, plan.wire.len());
@@ -1431,7 +1490,7 @@ pub fn c10(cx: &mut Ctx) -> VResult {
     cx.declare(F_FLUSH, &[]);
     cx.declare(&["write_error"], &[]);
     cx.declare(&[], C10_PROBES);
-    let o = PlanOpts { max_reqs: 2, noise: 1 + cx.ch.pick(5), closed_loop: false, abort: false, small_buf_bias: cx.ch.chance(1, 2), force_keep: false, either_noise: false };
+    let o = PlanOpts { max_reqs: 2, noise: 1 + cx.ch.pick(5), closed_loop: false, abort: false, small_buf_bias: cx.ch.chance(1, 2), force_keep: false, either_noise: false, pipelined: false, burst: false };
     let plan = gen_plan(cx, &o);
     note_plan(cx, &plan);
     let mut knobs = gen_knobs(cx, true, plan.wire.len());
@@ -1486,7 +1545,7 @@ pub fn c11(cx: &mut Ctx) -> VResult {
     cx.declare(F_TRANSPORT, P_BASE);
     cx.declare(F_SPURIOUS, &["handler_swallowed_error"]);
     cx.declare(&[], C11_PROBES);
-    let o = PlanOpts { max_reqs: 3, noise: cx.ch.pick(3), closed_loop: false, abort: true, small_buf_bias: cx.ch.chance(1, 2), force_keep: false, either_noise: false };
+    let o = PlanOpts { max_reqs: 3, noise: cx.ch.pick(3), closed_loop: false, abort: true, small_buf_bias: cx.ch.chance(1, 2), force_keep: false, either_noise: false, pipelined: false, burst: false };
     let plan = gen_plan(cx, &o);
     note_plan(cx, &plan);
     let knobs = gen_knobs(cx, true, plan.wire.len());
@@ -1528,7 +1587,7 @@ pub fn c12(cx: &mut Ctx) -> VResult {
     cx.declare(F_TRANSPORT, P_BASE);
     cx.declare(F_INJECT, &[]);
     cx.declare(&[], C12_PROBES);
-    let o = PlanOpts { max_reqs: 2, noise: cx.ch.pick(3), closed_loop: false, abort: false, small_buf_bias: cx.ch.chance(1, 2), force_keep: false, either_noise: false };
+    let o = PlanOpts { max_reqs: 2, noise: cx.ch.pick(3), closed_loop: false, abort: false, small_buf_bias: cx.ch.chance(1, 2), force_keep: false, either_noise: false, pipelined: false, burst: false };
     let plan = gen_plan(cx, &o);
     note_plan(cx, &plan);
     if plan.wire.len() > 1500 { 
@@ -1627,7 +1686,7 @@ pub fn c14_conn(cx: &mut Ctx) -> VResult {
     cx.declare(F_TRANSPORT, P_BASE);
     cx.declare(&["spurious_poll", "shutdown_requested"], &["shutdown_during_handler", "shutdown_before_first_read", "shutdown_between_or_preamble"]);
     cx.declare(&[], C14_PROBES);
-    let o = PlanOpts { max_reqs: 3, noise: cx.ch.pick(3), closed_loop: false, abort: false, small_buf_bias: cx.ch.chance(1, 3), force_keep: true, either_noise: true };
+    let o = PlanOpts { max_reqs: 3, noise: cx.ch.pick(3), closed_loop: false, abort: false, small_buf_bias: cx.ch.chance(1, 3), force_keep: true, either_noise: true, pipelined: false, burst: false };
     let plan = gen_plan(cx, &o);
     note_plan(cx, &plan);
     let knobs = gen_knobs(cx, true, plan.wire.len());
@@ -1678,7 +1737,7 @@ pub const C12H_PROBES: &[&str] = &["hostile_handler_invoked", "hostile_handler_g
 pub fn c12_hostile(cx: &mut Ctx) -> VResult {
     cx.declare(F_TRANSPORT, P_BASE);
     cx.declare(crate::d1c03::C03_FAULTS, C12H_PROBES);
-    let o = PlanOpts { max_reqs: 3, noise: cx.ch.pick(3), closed_loop: false, abort: cx.ch.chance(1, 4), small_buf_bias: cx.ch.chance(1, 2), force_keep: false, either_noise: false };
+    let o = PlanOpts { max_reqs: 3, noise: cx.ch.pick(3), closed_loop: false, abort: cx.ch.chance(1, 4), small_buf_bias: cx.ch.chance(1, 2), force_keep: false, either_noise: false, pipelined: false, burst: false };
     let mut plan = gen_plan(cx, &o);
     let wire = if cx.ch.chance(1, 8) {
         cx.fault("mut_random_bytes");
@@ -1732,5 +1791,33 @@ pub fn c12_hostile(cx: &mut Ctx) -> VResult {
     // each handler invocation is answered by at most one EndRequest with RequestComplete.. (ids may repeat): count only
     let completes = w.decoded.iter().filter(|r| r.rtype == END && r.content.len() == 8 && r.content[4] == ST_COMPLETE && r.id != 0).count();
     let _ = completes;
+    Ok(())
+}
+
+pub const C05A_PROBES: &[&str] = &["handler_read_to_final_eof", "pipelined_next_request_buffered_at_close", "pipelined_requests_3plus"];
+
+/// C05 in the async layer: a client that sends k requests back to back (no waiting for EndRequest) over one
+/// connection whose handlers read their final input stream to its end (earlier streams read, partly read or
+/// skipped): the hand-off between the requests loses, duplicates and reorders nothing, so all k requests are
+/// served with the environments, stream contents and outputs of k separate connections.
+pub fn c05_async(cx: &mut Ctx) -> VResult {
+    cx.declare(F_TRANSPORT, P_BASE);
+    cx.declare(F_SPURIOUS, C05A_PROBES);
+    let o = PlanOpts { max_reqs: 4, noise: cx.ch.pick(4), closed_loop: false, abort: false, small_buf_bias: cx.ch.chance(1, 2), force_keep: false, either_noise: true, pipelined: true, burst: false };
+    let plan = gen_plan(cx, &o);
+    note_plan(cx, &plan);
+    if plan.reqs.len() >= 3 { cx.probe("pipelined_requests_3plus"); }
+    let knobs = gen_knobs(cx, true, plan.wire.len());
+    let inner = take_cx(cx);
+    let hmode = if cx.ch.chance(1, 3) { HandlerMode::Readers } else { HandlerMode::Seq };
+    let mut out = run_conn_with(inner, &plan, knobs, &ConnOpts { mode: hmode, rfault: RFault::None, wfault: WFault::None, shutdown: None, strict_no_spurious: false }, |w| w.read_everything = true);
+    give_back(cx, &mut out);
+    for (i, inv) in out.world.handler_log.iter().enumerate() {
+        if let Some(rp) = plan.reqs.get(i) { if inv.finished && inv.read_pos_at_end > rp.end { cx.probe("pipelined_next_request_buffered_at_close"); } }
+    }
+    handler_violations(&out)?;
+    check_termination(&out, &plan, "c05_async")?;
+    check_history(&out, &plan, false, "c05_async")?;
+    check_replies(&out, &plan, out.world.read_pos, false, "c05_async")?;
     Ok(())
 }
